@@ -10,8 +10,8 @@ pub const META_C10: Meta = Meta {
     level: "exploration",
     rule: "Cases from profile `hazard`: accepted (program, signal list) pairs seeded with / and % by literal 0, by variables and device outputs that may be 0, MIN/-1, overflowing + - *, shift counts like -1/63/64/65, random(0), random(1), random(-5), random(device output), signExt, variables first bound inside a while body that may run zero times and are used afterwards, widths from {1,2,7,8,16,31,32,33,48,62,63,64} on inputs, outputs and bidirectionals, bits(0,e), device answers Z/X at ~6% of (call,signal), driver errors at a random call in 25% of cases; plus try_iter_static on every program that reads no outputs, and a fixed list of bits(64,e) rows. Oracle: every stage runs under catch_unwind and must never panic (signature = site+message); the item at which the reference says evaluation is impossible (zero divisor, unassigned variable with no output of that name supplied, empty random range [a drawn value is accepted too], unimplemented function) must be an error item; everything else must follow the prescribed row stream; the caller stops at the first error item. Non-trivial = the reference reaches >= 1 hazard on the executed path, or the configuration has a 63/64-bit signal, or a Z/X read / driver error item occurs.",
     assumptions: &["reference interpreter; draw log from the hook for programs using random"],
-    quick_cases: 40_000,
-    thorough_cases: 1_500_000,
+    quick_cases: 150000,
+    thorough_cases: 3000000,
     floor: 500,
 };
 
@@ -163,8 +163,8 @@ pub const META_C17: Meta = Meta {
         "hook LoggedContext forwards the crate's own range expression and generator call unchanged (it only observes)",
         "`one draw` is read as one generator call (gen_range) per evaluation of random(n)",
     ],
-    quick_cases: 30_000,
-    thorough_cases: 1_000_000,
+    quick_cases: 100000,
+    thorough_cases: 2000000,
     floor: 300,
 };
 
